@@ -143,11 +143,18 @@ def install(reg):
                     return d.groups[k]
                 if k in d.dsets:
                     return DsetHandle(base, k)
-                raise Raised('KeyError')
+                import re as _re
+                mm = _re.match(r'^(.*_)(\d+)$', k)
+                if mm and mm.group(1) in d.fams:
+                    key = FmtKey(mm.group(1), z3.IntVal(int(mm.group(2))))
+                else:
+                    raise Raised('KeyError')
             if isinstance(key, FmtKey):
                 fam = d.fams.get(key.prefix)
                 if fam is None:
                     raise Raised('KeyError')
+                kidx = key.idx if z3.is_expr(key.idx) else z3.IntVal(key.idx)
+                key = FmtKey(key.prefix, kidx)
                 ex.need(st)('h5_name_exists', z3.And(key.idx >= 0,
                                                      key.idx < fam.n))
                 if fam.kind == 'group':
